@@ -79,7 +79,7 @@ EXTRA_ASSUMPTIONS = {
             "set_p_values as for C09"],
     "C10": ["the lemma scripts run no code: they derive the round-to-round statements from the contracts proved for consistent_sampling (C07), "
             "the tests (C05, C11) and set_p_values (C09); the continuation call of consistent_sampling is covered by the bounded stand-in only "
-            "(known finding K5)"],
+            "(repaired by fix 9bfcd8d, formerly known finding K5)"],
     "C16": ["find_sample_size scripts: the test's sample_size and interleave_values are used through their contracts (proved by their own "
             "scripts); int(1/rate) is handled for rates of the form 1/step"],
     "C02": ["Assorter.mean / sum / Contest.tally unbounded proofs: a sum over a list is a function of its summands (extensionality) is used to "
